@@ -46,6 +46,10 @@ pub enum Hop {
   /// a child whose own unsubscribe() appends one more child to the composite
   /// (what a finalizer / a completing inner does in the middle of a teardown)
   AppendReentrant,
+  /// append an EMPTY nested composite and keep a handle to it
+  AppendNestedEmpty,
+  /// append one more child to the most recent kept nested composite
+  AppendToNested,
   Unsub,
   Clone,
   Sample,
@@ -94,6 +98,7 @@ macro_rules! composite_history {
     let mut appended_before: Vec<u32> = vec![];
     let mut late_appends = 0usize;
     let mut reentrant: Vec<u32> = vec![];
+    let mut nested: Vec<$multi> = vec![];
     for op in $h {
       match op {
         Hop::Append | Hop::AppendNested => {
@@ -121,6 +126,33 @@ macro_rules! composite_history {
             }
           } else {
             appended_before.push(id);
+          }
+        }
+        Hop::AppendNestedEmpty => {
+          if unsubscribed.is_none() {
+            let inner = <$multi>::default();
+            handles.last_mut().unwrap().append($boxed::new(inner.clone()));
+            nested.push(inner);
+          }
+        }
+        Hop::AppendToNested => {
+          if let Some(inner) = nested.last_mut() {
+            next_id += 1;
+            let id = next_id;
+            inner.append($boxed::new(Tracked { id, log: log.clone() }));
+            let after = stamp();
+            if unsubscribed.is_some() {
+              late_appends += 1;
+              let done = log.marks(id, "child_unsub").iter().any(|(s, _)| *s < after);
+              if !done {
+                problems.push((
+                  "late_append_left_running".into(),
+                  format!("subscription {} appended to a nested composite after the parent's unsubscribe() was not unsubscribed by the time append returned", id),
+                ));
+              }
+            } else {
+              appended_before.push(id);
+            }
           }
         }
         Hop::AppendReentrant => {
@@ -161,7 +193,12 @@ macro_rules! composite_history {
           handles.push(c);
         }
         Hop::Retain => handles.last_mut().unwrap().retain(),
-        Hop::Sample => {}
+        Hop::Sample => {
+          // asking must not change anything
+          for h in handles.iter() {
+            let _ = h.is_closed();
+          }
+        }
       }
       // after unsubscribe() any remaining handle reports closed
       if unsubscribed.is_some() {
@@ -202,7 +239,8 @@ pub fn run(cfg: &Cfg, rep: &mut Report) {
     let n = 2 + r.below(cfg.n(7, 12));
     let h: Vec<Hop> = (0..n)
       .map(|_| match r.below(10) {
-        0 | 1 => Hop::Append,
+        0 => Hop::Append,
+        1 => [Hop::Append, Hop::AppendNestedEmpty, Hop::AppendToNested, Hop::AppendToNested][r.below(4)].clone(),
         2 => Hop::AppendReentrant,
         3 => Hop::AppendNested,
         4 | 5 => Hop::Clone,
